@@ -65,21 +65,30 @@ extern "C" int clock_gettime(clockid_t id, struct timespec* ts)
 
 // ------------------------------------------------------------------------------------------------ purge-thread gate
 static std::atomic<int> g_parked{0};
-static std::atomic<long> g_tickets{0}, g_served{0}, g_sweeps{0};
+static std::atomic<long> g_tickets{0}, g_taken{0}, g_done{0};   // sweeps requested / claimed by the thread / completed
+static thread_local bool tl_sweeping = false;
+static std::atomic<bool> g_draining{false};   // set by the harness around operations that destroy an ExpiringCache
+
+static long long tsNs(const struct timespec* t) { return static_cast<long long>(t->tv_sec) * 1000000000LL + t->tv_nsec; }
 
 extern "C" int pthread_cond_clockwait(pthread_cond_t* cond, pthread_mutex_t* mutex, clockid_t clockid, const struct timespec* abstime)
 {
   // Only ExpiringCache's purge thread gets here in this process (condition_variable::wait_for on the steady clock).
+  // libstdc++ ignores the return value: it decides "timeout" by re-reading the steady clock once after this call returns.
+  // `tl_overrideOnceNs` fixes what that single read sees; every later read (the sweep's own `now`) sees the virtual time.
+  if (tl_sweeping)
+  {
+    tl_sweeping = false;      // the sweep this thread was released for (and its eviction callbacks) is complete
+    g_done.fetch_add(1);
+  }
   g_parked.fetch_add(1);
   for (;;)
   {
-    if (g_served.load() < g_tickets.load())
+    if (g_taken.load() < g_tickets.load())
     {
-      g_served.fetch_add(1);
-      g_sweeps.fetch_add(1);
-      // libstdc++ decides "timeout" by re-reading the steady clock once after this call returns: let that single read
-      // see the deadline; every later read (the sweep's own `now`) sees the virtual time again.
-      tl_overrideOnceNs = static_cast<long long>(abstime->tv_sec) * 1000000000LL + abstime->tv_nsec;
+      g_taken.fetch_add(1);
+      tl_sweeping = true;
+      tl_overrideOnceNs = tsNs(abstime);          // "deadline reached": exactly one sweep at the current virtual time
       g_parked.fetch_sub(1);
       return ETIMEDOUT;
     }
@@ -88,13 +97,23 @@ extern "C" int pthread_cond_clockwait(pthread_cond_t* cond, pthread_mutex_t* mut
     rt.tv_nsec += 500000; // 0.5 ms of real time
     if (rt.tv_nsec >= 1000000000L) { rt.tv_nsec -= 1000000000L; rt.tv_sec += 1; }
     int rc = pthread_cond_timedwait(cond, mutex, &rt);
-    if (rc == 0)
+    if (rc == 0 || g_draining.load())
     {
+      // notified (shutdown), spurious, or a destructor may be waiting for this thread (its notify_one can fall between two
+      // of these short waits): let the caller re-check its predicate, but never let it conclude that the 5 s elapsed
+      // (no sweep that the history did not ask for)
+      tl_overrideOnceNs = tsNs(abstime) - 1;
       g_parked.fetch_sub(1);
-      return 0; // notified (shutdown) or spurious: the caller re-checks its predicate
+      return 0;
     }
   }
 }
+
+struct Draining
+{
+  Draining() { g_draining.store(true); }
+  ~Draining() { g_draining.store(false); }
+};
 
 #define private public
 #define protected public
@@ -315,6 +334,7 @@ static std::string stepInner(const std::vector<std::string>& t, bool& encoding)
     unsigned long long v;
     if (op == "new" && t.size() == 3 && vh::parseNat(t[2], v))
     {
+      Draining dr;
       g_cache.reset();
       g_virtualNs.store(1000LL * 1000000000LL);
       g_cache = std::make_unique<DnsCache>(std::chrono::seconds(static_cast<long long>(v)));
@@ -365,6 +385,7 @@ static std::string stepInner(const std::vector<std::string>& t, bool& encoding)
     }
     if (op == "clear" && t.size() == 3 && (t[2] == "0" || t[2] == "1"))
     {
+      Draining dr;
       g_cache->clear(t[2] == "1");
       return "ok" + cacheTail();
     }
@@ -377,8 +398,8 @@ static std::string stepInner(const std::vector<std::string>& t, bool& encoding)
     {
       waitParked();
       long want = g_tickets.fetch_add(1) + 1;
-      for (int i = 0; i < 400000 && !(g_served.load() >= want && g_parked.load() >= 1); ++i) usleep(25);
-      if (!(g_served.load() >= want && g_parked.load() >= 1)) return "purge-stuck";
+      for (int i = 0; i < 400000 && g_done.load() < want; ++i) usleep(25);
+      if (g_done.load() < want) return "purge-stuck";
       return "ok" + cacheTail();
     }
     if (op == "stats" && t.size() == 2)
@@ -390,7 +411,7 @@ static std::string stepInner(const std::vector<std::string>& t, bool& encoding)
       return o.str();
     }
     if (op == "interposer" && t.size() == 2)
-      return "clock_reads=" + std::to_string(g_clockReads.load()) + " sweeps=" + std::to_string(g_sweeps.load());
+      return "clock_reads=" + std::to_string(g_clockReads.load()) + " sweeps=" + std::to_string(g_done.load());
     return "bad-op";
   }
   return "bad-op";
@@ -422,6 +443,9 @@ int main()
       return "throw unknown";
     }
   });
-  g_cache.reset();
+  {
+    Draining dr;
+    g_cache.reset();
+  }
   return rc;
 }
